@@ -49,7 +49,7 @@ ObsInit == [ regs |-> << >>,  \* g -> summary of registration number g
 Flag(o, c) == [o EXCEPT !.bad = @ \cup {c}]
 FlagIf(o, cond, c) == IF cond THEN Flag(o, c) ELSE o
 
-NewReg(e, ty) ==
+NewReg(e, ty, nchg) ==
   [r |-> e.r, tok |-> e.tok, ty |-> ty,
    phase |-> "active",     \* "active" | "closing" (marked last by the application, final not yet sent) | "ended"
    cause |-> "",           \* why it is over: Rst Unsuccessful Last ReRegister ConTimeout TransportError Shutdown
@@ -58,7 +58,8 @@ NewReg(e, ty) ==
    lastst |-> -1,          \* state number the last distinct notification was rendered at
    seen |-> {},            \* <<mid, dig>> of its distinct notifications (a repetition is a retransmission)
    cb |-> 0,               \* runs of the cancellation callback
-   pre |-> e.n]            \* observer count before the registration
+   pre |-> e.n,            \* observer count before the registration
+   born |-> nchg]          \* state number when it was accepted
 
 Detail(R) == ":" \o R.ty
 
@@ -110,12 +111,17 @@ ObsRx(o, e) ==
   ELSE o
 
 (* ---- tx ------------------------------------------------------------------ *)
+HeldAt(o, r, tok, k) ==
+  LET C == {h \in DOMAIN o.regs : o.regs[h].r = r /\ o.regs[h].tok = tok /\ o.regs[h].born < k} IN
+  IF C = {} THEN 0 ELSE CHOOSE h \in C : \A j \in C : j <= h
+
 ObsTx(o, e) ==
   IF e.cls # "resp" THEN o ELSE
-  LET key == <<e.r, e.tok>>
-      \* which registration the response belongs to: the one whose request object was rendered;
-      \* for an explicit response without marker, the one currently accepted under (remote, token)
-      g == IF e.g # 0 THEN e.g ELSE IF e.x = "E" /\ Has(o.cur, key) THEN o.cur[key] ELSE 0
+  LET \* which registration the response belongs to: the one whose request object was rendered; an
+      \* explicit response without marker (one object handed to all observers by the change that led to
+      \* state e.st) belongs to the registration that held (remote, token) when that change happened,
+      \* i.e. the latest one accepted before it (it may be sent, or retransmitted, after a re-registration)
+      g == IF e.g # 0 THEN e.g ELSE IF e.x = "E" THEN HeldAt(o, e.r, e.tok, e.st) ELSE 0
   IN IF g = 0 \/ ~Has(o.regs, g) THEN o ELSE
   LET R == o.regs[g]
       md == <<e.mid, e.dig>>
@@ -159,7 +165,7 @@ ObsChange(o, e) ==
 
 ObsAccept(o, e) ==
   LET key == <<e.r, e.tok>> IN
-  [o EXCEPT !.regs = Put(@, e.g, NewReg(e, IF Has(o.rq, key) THEN o.rq[key] ELSE "?")),
+  [o EXCEPT !.regs = Put(@, e.g, NewReg(e, IF Has(o.rq, key) THEN o.rq[key] ELSE "?", o.nchg)),
             !.cur = Put(@, key, e.g)]
 
 ObsCancelCb(o, e) ==
